@@ -229,6 +229,8 @@ class World:
         self.ret_kind = {}          # fname -> enumerator name | ('param', i)
         self.gwrites = {}           # fname -> set of globals assigned directly
         self.assumed_nonnull = {}   # (unit, function) -> set of type-rooted paths assumed non-null
+        self.ret_vals = {}          # fname -> frozenset of enumerators the function can return
+        self.global_vals = {}       # global -> frozenset of enumerators it can hold
         self.fact_summ = {}         # fname -> {'T': [disjunct], 'F': [...], 'A': [...]}; disjunct = (nul facts, vs facts) keyed by (param idx, suffix)
         self.enum_universe = {}
         for u in self.units.values():
@@ -236,6 +238,14 @@ class World:
                 self.enum_universe.setdefault(en, frozenset(names))
         self._scan_gwrites()
         self.recursive = self._recursive_functions()
+        # calls whose reaching states are kept for the rules: diagnostics, assertions, constructors, size dispatchers
+        self.record_calls = set(['error', 'error_tok', 'warn_tok', 'new_type', '__assert_fail'])
+        for u in self.units.values():
+            for f, fd in u.functions.items():
+                for c in fd.calls('error'):
+                    a = c.args()
+                    if a and (a[0].str_value() or '').startswith('internal error'):
+                        self.record_calls.add(f)
 
     def _recursive_functions(self):
         """functions on a cycle of the direct call graph (no return-fact summaries for those)"""
@@ -331,6 +341,8 @@ class Engine:
         self.exit_states = []
         self.keep_exit_states = bool(self.hooks.get('keep_exit_states'))
         self.ret_facts = []    # (const value or None, state) per normal return
+        self.ret_consts = []   # per value-return: frozenset of enumerators | None (unknown)
+        self.gstores = []      # (global name, frozenset of enumerators | None)
 
     # ---- paths ---------------------------------------------------------------
     def root_path(self, n):
@@ -512,6 +524,10 @@ class Engine:
                     v.rk = ('param', i)
             elif p.startswith('G:') and e.ref_name in self.W.nullable_globals:
                 v.nul, v.src = 'N', ('global', e.ref_name, self.W.nullable_globals[e.ref_name])
+        if v.vs is None and p.startswith('G:'):
+            gv = self.W.global_vals.get(e.ref_name)
+            if gv:
+                v.vs = ('in', gv)
         return [(S, v)]
 
     def member_val(self, S, e, bv):
@@ -682,8 +698,18 @@ class Engine:
             out.append((s, r))
         return out
 
+    def enum_set(self, v):
+        """enumerators a value can be, or None"""
+        if v.ename is not None:
+            return frozenset([v.ename])
+        if v.vs is not None and v.vs[0] == 'in' and v.vs[1] and all(isinstance(x, str) for x in v.vs[1]):
+            return v.vs[1]
+        return None
+
     def assign_path(self, S, p, v, node, decl=False):
         """store value v into path p"""
+        if p.startswith('G:') and not any(c in p for c in '-.['):
+            self.gstores.append((p[2:], self.enum_set(v)))
         root_end = 0
         while root_end < len(p) and p[root_end] not in '-.[':
             root_end += 1
@@ -826,7 +852,8 @@ class Engine:
                 if c is None:
                     out.append((s, UNKNOWN))
                     continue
-                self.calls.append((e, c, s.copy(), vals))
+                if c in self.W.record_calls:
+                    self.calls.append((e, c, s.copy(), vals))
                 for i, v in enumerate(vals):
                     if v.nul in ('N', 'NULL') and is_ptr_type(args[i].type):
                         if (c, i) not in self.null_args:
@@ -861,6 +888,9 @@ class Engine:
                         r.rk = rk
                     if r.nul is None:
                         r.nul = 'NN'
+                rv = self.W.ret_vals.get(c)
+                if rv and r.vs is None:
+                    r.vs = ('in', rv)
                 summ = self.W.fact_summ.get(c) if self.W.resolve(self.u, c) is not None else None
                 if summ is not None:
                     done = False
@@ -1033,8 +1063,8 @@ class Engine:
                 return ([S], []) if va.const == vb.const else ([], [S])
             if va.path is not None:
                 cur = S.vs.get(va.path)
-                if cur is None and va.rk is not None and isinstance(va.rk, tuple):
-                    cur = None
+                if cur is None and va.vs is not None:
+                    cur = va.vs
                 uni = self.universe(vb.ename, nb)
                 if cur is None and uni is not None:
                     cur = ('in', uni)
@@ -1237,6 +1267,7 @@ class Engine:
                             rk = '?'
                     self.returns.append((v.nul, v.src, rk if rk is not None else '?'))
                     self.ret_facts.append((v.const if v.path is None else None, s2))
+                    self.ret_consts.append(self.enum_set(v))
                     if self.keep_exit_states:
                         self.exit_states.append(s2)
             else:
@@ -1320,6 +1351,8 @@ class Engine:
                 uni = self.universe(x[1], None)
                 break
         cur = S.vs.get(v.path)
+        if cur is None and v.vs is not None:
+            cur = v.vs
         if cur is None and uni is not None:
             cur = ('in', uni)
         if cur is not None and cur[0] == 'in' and uni is not None and not all(isinstance(x, str) for x in cur[1]):
@@ -1430,22 +1463,31 @@ class Engine:
 PROPAGATING = ('null', 'param', 'ret', 'arg', 'global')
 
 
-def solve(W, max_rounds=8):
-    """run every function to a fixpoint of the derived tables (must-deref params,
-    nullable params, nullable results, constructor kinds); returns the engines of
-    the last round"""
+def solve(W, max_rounds=12):
+    """run every function to a fixpoint of the derived tables (must-deref params, nullable params, nullable results,
+    constructor kinds, return-fact summaries, value sets); returns the engines of the last run of every function.
+    After the first round only functions whose callees' (or own) table entries changed are re-run."""
     engines = {}
+    callees = {}
+    greads = {}
+    for un, u in W.units.items():
+        for f, fd in u.functions.items():
+            callees.setdefault(f, set()).update(c.callee() for c in fd.calls() if c.callee())
+            greads.setdefault(f, set()).update(n.ref_name for n in fd.walk() if n.kind == 'DeclRefExpr' and n.ref_kind == 'VarDecl' and n.ref_id in u.by_id)
+    dirty = None     # None = everything
+    gstores = {}     # function -> its global stores (kept across rounds)
     for rnd in range(max_rounds):
-        changed = False
-        engines = {}
+        touched = set()      # functions whose summaries/tables changed in this round
         for un, u in W.units.items():
             for f in u.functions:
+                if dirty is not None and f not in dirty:
+                    continue
                 eng = Engine(W, u, f).run()
                 engines[(un, f)] = eng
                 for i in eng.mustderef:
                     if not W.mustderef.get((f, i)):
                         W.mustderef[(f, i)] = True
-                        changed = True
+                        touched.add(f)
                 for (c, i), src in eng.null_args.items():
                     if c not in W.fn_unit:
                         continue
@@ -1453,29 +1495,80 @@ def solve(W, max_rounds=8):
                         continue
                     if (c, i) not in W.nullable_params:
                         W.nullable_params[(c, i)] = ('param', 'NULL can be passed by %s()' % f)
-                        changed = True
+                        touched.add('=' + c)
                 rt = (eng.fd.type or '').split('(')[0].strip()
                 if is_ptr_type(rt) and f not in W.nullable_rets:
                     for nul, src, rk in eng.returns:
                         if nul == 'NULL' or (nul == 'N' and src is not None and src[0] in PROPAGATING):
                             W.nullable_rets[f] = ('ret', 'the result of %s() may be NULL' % f)
-                            changed = True
+                            touched.add(f)
                             break
+                if eng.ret_consts and len(W.fn_unit.get(f, ())) == 1:
+                    rv = None
+                    if all(x is not None for x in eng.ret_consts):
+                        rv = frozenset().union(*eng.ret_consts)
+                    if rv != W.ret_vals.get(f):
+                        if rv is None:
+                            W.ret_vals.pop(f, None)
+                        else:
+                            W.ret_vals[f] = rv
+                        touched.add(f)
+                gstores[(un, f)] = eng.gstores
                 sm = eng.summary() if f not in W.recursive else None
                 if sm != W.fact_summ.get(f) and len(W.fn_unit.get(f, ())) == 1:
                     if sm is None:
                         W.fact_summ.pop(f, None)
                     else:
                         W.fact_summ[f] = sm
-                    changed = True
+                    touched.add(f)
                 if is_ptr_type(rt):
                     rks = set(rk for nul, src, rk in eng.returns if not (nul == 'NULL'))
                     if len(rks) == 1:
                         rk = list(rks)[0]
                         if rk not in ('?', None) and W.ret_kind.get(f) != rk:
                             W.ret_kind[f] = rk
-                            changed = True
-        if not changed:
+                            touched.add(f)
+        # enum-typed globals: initial value (zero = the enumerator with value 0, or the initializer) + every store
+        gst = {}
+        for lst in gstores.values():
+            for g, es in lst:
+                gst.setdefault(g, []).append(es)
+        gv = {}
+        for g, lst in gst.items():
+            if any(x is None for x in lst):
+                continue
+            owners = [u for u in W.units.values() if g in u.globals]
+            if len(owners) != 1:
+                continue
+            d = owners[0].globals[g]
+            et = (d.type or '').replace('static ', '').strip()
+            uni = W.enum_universe.get(et)
+            if not uni:
+                continue
+            init = None
+            if 'init' in d.d and d.inner:
+                x = d.inner[-1].strip_all()
+                if x.kind == 'DeclRefExpr' and x.ref_kind == 'EnumConstantDecl':
+                    init = x.ref_name
+                else:
+                    continue
+            else:
+                zs = [n for n in owners[0].enum_types.get(et, []) if owners[0].enums.get(n) == 0]
+                if len(zs) != 1:
+                    continue
+                init = zs[0]
+            gv[g] = frozenset([init]).union(*lst)
+        gchanged = set(g for g in set(gv) | set(W.global_vals) if gv.get(g) != W.global_vals.get(g))
+        W.global_vals = gv
+        if not touched and not gchanged:
+            break
+        dirty = set()
+        own = set(t[1:] for t in touched if t.startswith('='))
+        called = set(t for t in touched if not t.startswith('='))
+        for f, cs in callees.items():
+            if f in own or (cs & called) or (greads.get(f, set()) & gchanged):
+                dirty.add(f)
+        if not dirty:
             break
     else:
         raise AnalysisBroken('derived tables do not reach a fixpoint')
